@@ -205,12 +205,18 @@ fn apply(o: Obj, c: &Value, k: usize, salt: usize) -> Result<Obj, String> {
             let path = scratch();
             let r = (|| -> Result<(), String> {
                 let mut f = std::fs::File::create(&path).map_err(|e| e.to_string())?;
-                let lead: usize = salt % 3;
+                // a few leading elements - sometimes more than a page of them, so that the map spans several pages
+                let lead: usize = if salt % 7 == 3 { 600 + salt % 3 } else { salt % 3 };
                 for j in 0..lead { (j as u64 + 77).serialize(&mut f).map_err(|e| e.to_string())?; }
                 match &o { Obj::Raw(v) => v.serialize(&mut f), Obj::Int(v) => v.serialize(&mut f), _ => unreachable!() }.map_err(|e| e.to_string())?;
                 drop(f);
-                let map = MemoryMap::new(&path, MappingMode::ReadOnly).map_err(|e| format!("MemoryMap::new failed: {}", e))?;
-                if map.filename() != path.as_path() || map.mode() != MappingMode::ReadOnly || map.is_empty() { return Err(format!("map accessors: filename {:?}, mode {:?}, is_empty {}", map.filename(), map.mode(), map.is_empty())); }
+                // the file is named directly or through a symbolic link
+                let link = scratch();
+                let via_link = salt % 4 == 1 && std::os::unix::fs::symlink(&path, &link).is_ok();
+                let name = if via_link { link.clone() } else { path.clone() };
+                let map = MemoryMap::new(&name, MappingMode::ReadOnly).map_err(|e| { let _ = std::fs::remove_file(&link); format!("MemoryMap::new failed ({}): {}", if via_link { "file named through a symbolic link" } else { "plain name" }, e) })?;
+                let _ = std::fs::remove_file(&link);
+                if map.filename() != name.as_path() || map.mode() != MappingMode::ReadOnly || map.is_empty() { return Err(format!("map accessors: filename {:?}, mode {:?}, is_empty {}", map.filename(), map.mode(), map.is_empty())); }
                 match &o {
                     Obj::Raw(v) => {
                         let m = RawVectorMapper::new(&map, lead).map_err(|e| format!("RawVectorMapper::new failed: {}", e))?;
@@ -228,6 +234,10 @@ fn apply(o: Obj, c: &Value, k: usize, salt: usize) -> Result<Obj, String> {
                     },
                     _ => unreachable!(),
                 }
+                drop(map);
+                // nothing of the file stays mapped once the map is gone
+                let left = crate::mm::mapped_bytes(&path);
+                if left != 0 { return Err(format!("{} bytes of the file are still mapped after the map was dropped", left)); }
                 Ok(())
             })();
             let _ = std::fs::remove_file(&path);
